@@ -261,6 +261,8 @@ type Panic struct{ Msg string }
 type Append struct {
 	Arr Expr // place
 	Val Expr
+	// Ref: Arr is a `&'[]T` variable: rendered `append(a, v)` instead of `append(&'a, v)`
+	Ref bool
 }
 
 // Raw is an escape hatch for source text the renderer emits verbatim and the interpreter
